@@ -610,6 +610,11 @@ impl Ctrl {
         g.timers.iter().min().copied()
     }
 
+    /// the sites passed so far in this execution, in order
+    pub fn sites_so_far(&self) -> Vec<&'static str> {
+        self.lock().trace.iter().map(|e| e.site).collect()
+    }
+
     pub fn take_trace(&self) -> Vec<Event> {
         std::mem::take(&mut self.lock().trace)
     }
